@@ -713,7 +713,12 @@ def run(ctx):
                        "1-2 import sets of their own that differ from M's imports, and probe EVERY candidate name inside the user-code position of each visible "
                        "wrapper and of 1-2 nestings of depth 2-3, in pair form (name) and identifier form name; oracle = the SPEC origin of the name in the program "
                        "(exactly as outside the macro), the extracted SynClo.closed_probe classifies the standing leak F-C14-2 for unbound names; a closed probe is "
-                       "distinct by (graph shape, imports, wrapper kinds, template, name).  thorough adds the enumeration of "
+                       "distinct by (graph shape, imports, wrapper kinds, template, name).  round 4: no probe calls or evaluates a name that the SPEC or the "
+                       "model of the code says denotes a keyword of (scheme base) (its transformer would raise: F-C06-1), and a sentinel in the driver "
+                       "reports any error raised inside a macro transformer instead of answering from the corrupted context; mlit/elit carry a literal "
+                       "ulit that no library defines, probed before and after the program evaluated the unbound name (R7RS 4.3.2); 45 % of the libraries put "
+                       "one declaration (a definition or an export) under cond-expand (decoys in every clause but the first true one), 30 % keep 1-2 "
+                       "definitions in an included file; the chibi processes run on a pool of 3 threads.  thorough adds the enumeration of "
                        "all import sets of depth <= 2 over a 4-name library with swapped renamed exports (11+ id lists, 8 rename lists, 3 prefixes).")
     # ------------------------------------------------------------------ (G) + (T)
     split = ctx.cov.setdefault("wall_split_s", {})
@@ -752,7 +757,7 @@ def run(ctx):
     ctx.trust("the generator's own python rendering of import sets is used only to build inputs; every verdict comes from the extracted Spec.program_origin / Spec.denote")
     ctx.assume("identifiers are ASCII (the model's strings are byte sequences; chibi's string-length/substring count characters)")
     ctx.assume("import sets bound twice to different bindings, and names both defined and imported in one library, are 'an error' in R7RS: not compared")
-    ctx.assume("(auto) modules, include/include-ci file lookup, cond-expand and mutation of imported bindings are outside this check")
+    ctx.assume("(auto) modules, include-ci / include-library-declarations, error paths of cond-expand and mutation of imported bindings are outside this check")
 
     # ------------------------------------------------------------------ build all graphs and cases
     graphs = []
@@ -1375,12 +1380,6 @@ def _judge_outer(ctx, d, moddir, gr, c, got, spec, libs, ticks, needed):
         ctx.violation(sigbase + cls, input=text, name=name, graph=[l.sld() for l in gr["libs"]],
                       expected="%s (the definition of %s in library %s%s)" % (exp, m, lib, "; this library's tick has run %d time(s) in this process" % exp[2] if exp[0] == "v14ctr" else ""),
                       observed=repr(g), replay=replay_cmd(d, moddir, isets, name, top))
-
-
-def _dbg(*a):
-    if os.environ.get("C14_DEBUG_CARVE"):
-        with open(os.environ["C14_DEBUG_CARVE"], "a") as fh:
-            fh.write(repr(a) + "\n")
 
 
 _leak_registered = None
